@@ -52,7 +52,7 @@ pub fn main(args: &Args) -> i32 {
     let mut b = Batcher::new(&args.out, "sign", 5000);
     let mut rng = SmallRng::seed_from_u64(args.seed ^ 0xC19);
     let secp = Secp256k1::new();
-    let count = if args.thorough { 400 } else { 60 };
+    let count = if args.thorough { 2500 } else { 60 };
     for i in 0..count {
         let mut skb = [0u8; 32];
         rng.fill(&mut skb);
@@ -167,7 +167,7 @@ pub fn main(args: &Args) -> i32 {
         }
     }
     // arbitrary 65-byte strings: a result or an error, never a panic
-    let n = if args.thorough { 20000 } else { 3000 };
+    let n = if args.thorough { 100000 } else { 3000 };
     let mut panics = 0;
     let mut oks = 0;
     for _ in 0..n {
